@@ -29,8 +29,9 @@ ALLOWED_EXPOSED_READS = {"_vertices", "_edges", "_len_gradient"}
 
 
 class Finding:
-    def __init__(self, key, rule, ok, what="", where=None):
+    def __init__(self, key, rule, ok, what="", where=None, undecided=False):
         self.key, self.rule, self.ok, self.what, self.where = key, rule, ok, what, where
+        self.undecided = undecided       # the recogniser does not know this way of writing the code: no verdict, not a violation
 
 
 def unp(e):
@@ -63,8 +64,8 @@ class OptimizeAnalysis:
     def w(self, node):
         return "%s:%d" % (self.mod, getattr(node, "lineno", 0))
 
-    def add(self, key, rule, ok, what="", node=None):
-        self.findings.append(Finding(key, rule, bool(ok), what, self.w(node) if node is not None else None))
+    def add(self, key, rule, ok, what="", node=None, undecided=False):
+        self.findings.append(Finding(key, rule, bool(ok), what, self.w(node) if node is not None else None, undecided=undecided and not ok))
         return ok
 
     def is_results_list(self, e):
